@@ -340,7 +340,7 @@ def parallel(fn, jobs, procs=None, stats=None, fork=False):
     ctx = multiprocessing.get_context('fork')
     global _FORK_FN
     _FORK_FN = fn
-    with ctx.Pool(procs, maxtasksperchild=None) as pool:
+    with ctx.Pool(procs, maxtasksperchild=1) as pool:      # a fresh process per job: no state leaks between jobs
         for kind, val in pool.imap_unordered(_fork_call, jobs, chunksize=1):
             if kind == 'err':
                 pool.terminate()
